@@ -10,6 +10,7 @@ import (
 )
 
 var table = map[string]func(tier string) int{
+	"C02": checks.C02,
 	"C07": checks.C07,
 	"C08": checks.C08,
 	"C09": checks.C09,
